@@ -99,7 +99,7 @@ class Engine:
         s.stats = {'paths': 0, 'forks': 0, 'solver_calls': 0, 'solver_time': 0.0, 'instrs': 0}
         s.nsym = 0
         s.violations = []
-        s.fn_seen = set(); s.models_used = set(); s.fork_sites = {}; s.max_fork_width = 4096
+        s.fn_seen = set(); s.models_used = set(); s.fork_sites = {}; s.max_fork_width = 4096; s.undef_syms = set()
         s.max_steps = 2000000; s.max_paths = 200000; s.deadline = time.time() + 3600; s.sample = None; s.reached = set()
         s.races = {}; s.racy_points = set()
         s.all_syms = []
@@ -296,7 +296,14 @@ class Engine:
             return [z3.simplify(z3.Extract(8 * i + 7, 8 * i, v)) for i in range(n)]
         return [(v >> (8 * i)) & 0xff for i in range(n)]
     def from_bytes(s, bs):
-        if any(b is UNDEF for b in bs): return UNDEF
+        if any(b is UNDEF for b in bs):
+            if all(b is UNDEF for b in bs): return UNDEF
+            # partially initialised word (e.g. a field and its padding loaded together): the uninitialised bytes become
+            # tagged fresh symbols; using them in a branch / address is reported, masking them away is harmless
+            bs = list(bs)
+            for i, b in enumerate(bs):
+                if b is UNDEF:
+                    s.nsym += 1; v = z3.BitVec('undef%d' % s.nsym, 8); s.undef_syms.add(v.decl().name()); bs[i] = v
         if all(not is_sym(b) for b in bs):
             v = 0
             for i, b in enumerate(bs): v |= b << (8 * i)
@@ -351,6 +358,19 @@ class Engine:
             try: size = s.sizeof(g['type'])
             except Exception: size = 8
             s.gaddr[n] = s.alloc(st, max(size, 1), 'const' if g['const'] else 'global')
+        if '@__libc_single_threaded' in s.gaddr:       # glibc flag read by shared_ptr: 0 = take the atomic (always correct) path
+            st.mem[s.gaddr['@__libc_single_threaded']] = 0
+        # libstdc++ VTTs referenced by INLINED stream destructors: every slot points to a fake vtable whose vbase-offset entry
+        # (vptr[-3]) places the virtual std::ios base where the real layout has it
+        for n, off in (('@_ZTTNSt7__cxx1119basic_ostringstreamIcSt11char_traitsIcESaIcEEE', [112] * 4),
+                       ('@_ZTTNSt7__cxx1118basic_stringstreamIcSt11char_traitsIcESaIcEEE', [128, 128, 128, 112, 112, 112, 128, 128, 112, 128])):
+            if n in s.gaddr:
+                base = s.gaddr[n]
+                if st.objs[base][0] < 8 * len(off):
+                    base = s.alloc(st, 8 * len(off), 'global'); s.gaddr[n] = base
+                for i, o in enumerate(off):
+                    vt = s.alloc(st, 64, 'global'); s.store_bytes(st, vt, [0] * 64); s.store(st, vt, TInt(64), o)
+                    for k, b in enumerate(s.to_bytes(vt + 24, 8)): st.mem[base + 8 * i + k] = b
         for n, g in s.m.globals.items():
             if n == '@llvm.global_ctors' or g['init'] is None: continue
             base = s.gaddr[n]
@@ -517,6 +537,7 @@ class Engine:
         if op == 'sext': return z3.simplify(z3.SignExt(db - sb, v))
         raise Unsupported(op)
     def gep(s, st, bty, base, idx):
+        if base is UNDEF: return UNDEF
         addr = base; cur = bty
         for n, (ity, iv) in enumerate(idx):
             if iv is UNDEF: raise Violation('uninitialised value used as index')
@@ -766,6 +787,9 @@ class Engine:
         if not is_sym(cond):
             s.jump(st, fr, a if cond & 1 else b); return
         c = (cond == 1) if cond.size() == 1 else (cond != 0)
+        if s.undef_syms:
+            c = z3.simplify(c)
+            if any(v.decl().name() in s.undef_syms for v in z3_vars(c)): raise Violation('branch on uninitialised value in %s' % fr.fn.name)
         ta = s.feasible(st, c); tb = s.feasible(st, z3.Not(c))
         if ta and tb:
             s.stats['forks'] += 1
@@ -1211,7 +1235,7 @@ def m_rethrow(e, st, args):
     st.exc = st.caught[-1]; return None
 def m_rb_insert(e, st, args):
     left, x, p, h = args; I = TInt(64)
-    e.store(st, x + 8, I, p); e.store(st, x + 16, I, 0); e.store(st, x + 24, I, 0); e.store(st, x, TInt(32), 0)
+    e.store(st, x + 8, I, p); e.store(st, x + 16, I, 0); e.store(st, x + 24, I, 0); e.store(st, x, TInt(32), 1)   # every real node black: only the header is red (decrement relies on it)
     if left & 1:
         e.store(st, p + 16, I, x)
         if p == h: e.store(st, h + 8, I, x); e.store(st, h + 24, I, x)
@@ -1241,6 +1265,41 @@ def m_rb_dec(e, st, args):
     while x == L(y + 16): x = y; y = L(y + 8)
     return y
 
+def m_rb_erase(e, st, args):
+    """_Rb_tree_rebalance_for_erase(z, header): plain (unbalanced) BST deletion; returns z. header: +8 root, +16 leftmost, +24 rightmost."""
+    z, h = args; I = TInt(64)
+    L = lambda a: e.load(st, a, I)
+    def S(a, v): e.store(st, a, I, v)
+    zl, zr, zp = L(z + 16), L(z + 24), L(z + 8)
+    if zl == 0 or zr == 0:
+        x = zr if zl == 0 else zl
+    else:
+        y = zr
+        while L(y + 16): y = L(y + 16)
+        if L(y + 8) != z:
+            yp = L(y + 8); yr = L(y + 24)
+            S(yp + 16, yr)
+            if yr: S(yr + 8, yp)
+            S(y + 24, zr); S(zr + 8, y)
+        S(y + 16, zl); S(zl + 8, y)
+        x = y
+    if L(h + 8) == z: S(h + 8, x)
+    elif L(zp + 16) == z: S(zp + 16, x)
+    else: S(zp + 24, x)
+    if x: S(x + 8, zp)
+    if L(h + 16) == z:
+        if zr == 0: S(h + 16, zp)
+        else:
+            m = zr
+            while L(m + 16): m = L(m + 16)
+            S(h + 16, m)
+    if L(h + 24) == z:
+        if zl == 0: S(h + 24, zp)
+        else:
+            m = zl
+            while L(m + 24): m = L(m + 24)
+            S(h + 24, m)
+    return z
 BUILTIN_MODELS = {
     '_Znwm': m_malloc, '_Znam': m_malloc, 'malloc': m_malloc, '_ZdlPv': m_free, '_ZdaPv': m_free, 'free': m_free,
     '_ZNKSt7__cxx1112basic_stringIcSt11char_traitsIcESaIcEE4findEcm': m_find_c,
@@ -1254,7 +1313,8 @@ BUILTIN_MODELS = {
     '_ZNSt7__cxx1112basic_stringIcSt11char_traitsIcESaIcEE9_M_assignERKS4_': m_assign,
     '_ZNSt7__cxx1112basic_stringIcSt11char_traitsIcESaIcEE9_M_mutateEmmPKcm': m_mutate,
     '_ZNSt7__cxx1112basic_stringIcSt11char_traitsIcESaIcEE7reserveEm': m_reserve,
-    'memcmp': m_memcmp, 'bcmp': m_memcmp, 'strtol': m_strtol, '__errno_location': m_errno,
+    'memcmp': m_memcmp, 'bcmp': m_memcmp, 'strtol': m_strtol, 'strtoll': m_strtol, 'strtoul': m_strtol, 'strtoull': m_strtol,   # (identical below 19 digits)
+    '__errno_location': m_errno,
     '__cxa_allocate_exception': m_malloc, '__cxa_free_exception': lambda e, st, a: None, '__cxa_throw': m_throw,
     '__cxa_begin_catch': m_begin_catch, '__cxa_end_catch': m_end_catch, '__cxa_rethrow': m_rethrow,
     '__cxa_atexit': lambda e, st, a: 0,
@@ -1265,7 +1325,8 @@ BUILTIN_MODELS = {
     '_ZNSt12out_of_rangeC1EPKc': lambda e, st, a: None, '_ZNSt12out_of_rangeD1Ev': lambda e, st, a: None,
     '_ZSt29_Rb_tree_insert_and_rebalancebPSt18_Rb_tree_node_baseS0_RS_': m_rb_insert,
     '_ZSt18_Rb_tree_incrementPSt18_Rb_tree_node_base': m_rb_inc, '_ZSt18_Rb_tree_incrementPKSt18_Rb_tree_node_base': m_rb_inc,
-    '_ZSt18_Rb_tree_decrementPSt18_Rb_tree_node_base': m_rb_dec,
+    '_ZSt18_Rb_tree_decrementPSt18_Rb_tree_node_base': m_rb_dec, '_ZSt18_Rb_tree_decrementPKSt18_Rb_tree_node_base': m_rb_dec,
+    '_ZSt28_Rb_tree_rebalance_for_erasePSt18_Rb_tree_node_baseRS_': m_rb_erase,
 }
 
 
@@ -1504,7 +1565,7 @@ def _stream_sb(st, os_):
 def _stream_put(e, st, os_, bs):
     sb = _stream_sb(st, os_); s_ = Str(e, st, sb + 72)
     s_.set(s_.bytes() + list(bs))
-    p = s_.p; e.store(st, sb + 40, I64, p); e.store(st, sb + 48, I64, p + s_.len); e.store(st, sb + 56, I64, p + s_.cap())
+    p = s_.p; e.store(st, sb + 32, I64, p); e.store(st, sb + 40, I64, p + s_.len); e.store(st, sb + 48, I64, p + s_.cap())   # pbase, pptr, epptr
     return os_
 def _fake_ctype(e, st):
     if not hasattr(st, 'fake_ctype'):
